@@ -35,7 +35,6 @@ def goenv():
     e.pop("GOFLAGS", None)
     e.pop("GOTOOLCHAIN", None)
     e.pop("GOSUMDB", None)
-    e.setdefault("GOCACHE", os.path.join(WORK, "gocache"))
     return e
 
 
@@ -147,10 +146,14 @@ def run_lines(cmd, lines, cwd=None, env=None, jobs=None, timeout=3600):
 
 
 def load_known():
-    p = os.path.join(ROOT, "known_findings.json")
-    if not os.path.exists(p):
-        return {"findings": [], "fixed": []}
-    return json.load(open(p))
+    import glob
+    res = {"findings": [], "fixed": []}
+    for p in [os.path.join(ROOT, "known_findings.json")] + sorted(glob.glob(os.path.join(ROOT, "known_findings.d", "*.json"))):
+        if os.path.exists(p):
+            d = json.load(open(p))
+            res["findings"] += d.get("findings", [])
+            res["fixed"] += d.get("fixed", [])
+    return res
 
 
 class Check:
@@ -249,6 +252,7 @@ class Check:
     def model_exe(self):
         """Build the core-only model driver (depends on model files + regenerated facts only)."""
         with Lock("lake"):
+            run([sys.executable, os.path.join(ROOT, "tools", "mkdriver.py")])
             rc, out = run(["lake", "build", "tlmodel"], cwd=LEAN)
             if rc != 0:
                 raise SystemExit("tlmodel build failed:\n" + out[-4000:])
@@ -341,6 +345,7 @@ class Check:
         broken = bool(self.proof_failures or tie_unexplained)
         violations = 0
         replay = None
+        new_fail.sort(key=lambda f: (len(str(f.get("input") or f["key"])), str(f["key"])))
         if new_fail:
             violations = len(new_fail)
             replay = self.write_replay({"property": self.pid, "kind": "input", "seed": self.seed, "tier": self.tier,
